@@ -49,6 +49,11 @@ CHECKS = {
     text="Unaligned BAM / FASTQ / FASTQ.gz inputs with duplicate names and empty sequences, 2- and 4-column lists with/without header and 'none' entries, ploidy 2-4 and every option combination are run through run_split; each output file must equal the subsequence of the input that a routing model built from the list sends to it, outputs must partition the input when all are requested, and histogram columns must match the routed counts.",
     note="Trusted: the routing model in props/c14_split.py; list names unique; ties for the largest block are not judged.",
     ref="DESIGN.md section 4, C14"),
+ "C06": dict(
+    technique="property-based testing (Hypothesis): generated BAMs with adversarially placed read boundaries and CIGAR shapes; oracle = the haplotype each read was copied from",
+    text="Reads are rendered by the harness as exact copies of known haplotypes (indels at the normalised position; soft/hard clips, N skips, =/X, mate pairs, unrelated indels) with boundaries at every offset around variant ends; ReadSetReader.read runs in both modes and every (read, variant) pair is classified geometrically (fully covers / no overlap / partial) and the recorded allele compared with the truth.",
+    note="Trusted: the read renderer in vlib/genome.py and the geometric definitions of 'fully covers' / 'does not overlap' stated in the evidence assumptions; partial overlaps are not judged.",
+    ref="DESIGN.md section 4, C06"),
 }
 
 NOT_YET = {}
